@@ -1,0 +1,22 @@
+//go:build verif
+
+package sseutil
+
+import "sync/atomic"
+
+var verifYieldFn atomic.Value // func(point string)
+
+// VerifSetYield installs the yield controller (see package mcp, verif_yield.go).
+func VerifSetYield(fn func(point string)) {
+	if fn == nil {
+		verifYieldFn.Store((func(string))(nil))
+		return
+	}
+	verifYieldFn.Store(fn)
+}
+
+func verifYield(point string) {
+	if fn, _ := verifYieldFn.Load().(func(string)); fn != nil {
+		fn(point)
+	}
+}
